@@ -49,6 +49,10 @@ class Deferred(Node):
             ident.parse(None)
             mixins = scope.mixins(ident.raw())
 
+        # A call inside a rule or @media block of a mixin body is reached
+        # through Block.parse and arrives with depth 0: the expansions this
+        # call is nested in are counted on the scope as well.
+        depth = max(depth, scope.mixin_depth)
         if depth > 64:
             raise SyntaxError('NameError `%s`' % ident.raw(True))
 
@@ -98,17 +102,22 @@ class Deferred(Node):
         if res:
             store = [t for t in scope.deferred.parsed[-1]
                      ] if scope.deferred else False
-            tmp_res = []
-            for p in res:
-                if p:
-                    if isinstance(p, Deferred):
-                        tmp_res.append(p.parse(scope, depth=depth + 1))
-                    else:
-                        tmp_res.append(p.parse(scope))
-            res = tmp_res
-            #res = [p.parse(scope, depth=depth+1) for p in res if p]
-            while (any(t for t in res if isinstance(t, Deferred))):
-                res = [p.parse(scope) for p in res if p]
+            outer_depth = scope.mixin_depth
+            scope.mixin_depth = depth + 1
+            try:
+                tmp_res = []
+                for p in res:
+                    if p:
+                        if isinstance(p, Deferred):
+                            tmp_res.append(p.parse(scope, depth=depth + 1))
+                        else:
+                            tmp_res.append(p.parse(scope))
+                res = tmp_res
+                #res = [p.parse(scope, depth=depth+1) for p in res if p]
+                while (any(t for t in res if isinstance(t, Deferred))):
+                    res = [p.parse(scope) for p in res if p]
+            finally:
+                scope.mixin_depth = outer_depth
             if store:
                 scope.deferred.parsed[-1] = store
         if framed:
